@@ -103,6 +103,19 @@ pub fn run(ctx: &Ctx, rep: &mut Report) {
             cli_batch.push(src);
         }
     }
+    // statements that are laid out over several lines and carry an end-of-line comment
+    for body in [
+        "[1111111111, 2222222222, 3333333333, 4444444444, 5555555555, 6666666666, 7777777777, 8888888888]",
+        "{alpha_alpha_alpha: 1111111111, beta_beta_beta: 2222222222, gamma_gamma_gamma: 3333333333, delta_delta: 4444444444}",
+        "some_function_name(1111111111, 2222222222, 3333333333, 4444444444, 5555555555, 6666666666, 7777777777)",
+        "do {\n  t = 1\n  return t\n}",
+        "if aaaaaaaaaaaaaaaaaaaaaaaaaaaaaaaaaaaaaaaaaaaaaaaaaaaaaaaaaaaaaaaaaa then bbbbbbbbbbbbbbbbbbbbbbbb else cccccccccccccccccccccccc",
+        "[\n  1, // inner\n  2,\n]",
+    ] {
+        for stmt in [format!("x = {} // note", body), format!("output y = {} // note", body), format!("{}  // tail", body), format!("x = {} // one\ny = 2 // two", body)] {
+            cli_batch.push(stmt);
+        }
+    }
     for (k, src) in cli_batch.iter().enumerate() {
         rep.count("cli-format-runs");
         if let Ok(f1) = cli_format(&ctx.blots_bin, src, &format!("c08a-{}", k)) {
